@@ -29,11 +29,14 @@ _HEX = re.compile(r'0x[0-9a-fA-F]+')
 
 
 def clean(s):
-    s = _HEX.sub('0x', str(s))
+    s = str(s)
     sim = K.CUR
     tmp = sim.data.get('tmp') if sim is not None else None
     if tmp:
+        # (first: the random part of the directory name may look like an
+        # address - `...0x3f` - to the next substitution)
         s = s.replace(tmp, '<tmp>')
+    s = _HEX.sub('0x', s)
     return s[:300]
 
 
